@@ -157,10 +157,14 @@ def jobs(tier):
     CT = ((0, 0), (2, 0), (7, 0), (2, 1), (7, 1))
     # --- SRAM
     A(lambda: sram_inst("SRAM d4 dw8", 8, 4, 3, adrs=range(6)))
-    A(lambda: sram_inst("SRAM d4 dw16", 16, 4, 3, adrs=range(5)))
+    A(lambda: sram_inst("SRAM d2 dw16", 16, 2, 2, adrs=range(3)))
+    if not quick:
+        A(lambda: sram_inst("SRAM d4 dw16", 16, 4, 3, adrs=range(5)))
     A(lambda: sram_inst("SRAM d4 dw8 read_only", 8, 4, 3, ro=True, init=[0xA1, 0, 0xB2, 5], adrs=range(6)))
     A(lambda: sram_inst("SRAM d3 dw8 (non-pow2 depth)", 8, 3, 3, adrs=range(5)))
-    A(lambda: sram_inst("SRAM d4 dw8 burst", 8, 4, 3, burst=True, adrs=range(5), sels=[1], ctis=CT))
+    A(lambda: sram_inst("SRAM d2 dw8 burst", 8, 2, 3, burst=True, adrs=range(4), sels=[1], ctis=CT))
+    if not quick:
+        A(lambda: sram_inst("SRAM d4 dw8 burst", 8, 4, 3, burst=True, adrs=range(5), sels=[1], ctis=CT))
     A(lambda: sram_inst("SRAM d4 dw8 burst read_only", 8, 4, 3, burst=True, ro=True, init=[0xA1, 0, 0xB2, 5],
                         adrs=range(5), sels=[1], ctis=CT + ((2, 2), (2, 3))))
     # --- converters alone (free slave port)
@@ -172,28 +176,33 @@ def jobs(tier):
     A(lambda: conv_inst("Up 8->32", 8, 32, 3, adrs=range(8), sels=[0, 1],
                         slave_letters=[(0, 0, 0), (1, 0xD4C3B2A1, 0), (0, 0, 1)]))
     # --- converters over a real SRAM (real modules composed in one Migen module)
-    A(lambda: conv_sram_inst("Down 16->8 / SRAM d4", 16, 8, 2, 4, adrs=range(3), sels=range(4)))
-    A(lambda: conv_sram_inst("Down 32->8 / SRAM d4", 32, 8, 2, 4, adrs=range(2), sels=[0, 0xF, 1, 8, 6, 3]))
+    A(lambda: conv_sram_inst("Down 16->8 / SRAM d4", 16, 8, 2, 4, adrs=range(2 if quick else 3), sels=range(4)))
+    A(lambda: conv_sram_inst("Down 32->8 / SRAM d4", 32, 8, 2, 4, adrs=range(2), sels=[0, 0xF, 1, 8, 6, 3]), q=900)
     if not quick:
         A(lambda: conv_sram_inst("Down 32->8 / SRAM d8", 32, 8, 2, 8, adrs=range(3), sels=[0, 0xF, 1, 8, 6]))
-    A(lambda: conv_sram_inst("Up 8->16 / SRAM d4", 8, 16, 4, 4, adrs=range(9), sels=[0, 1]))
-    A(lambda: conv_sram_inst("Up 8->32 / SRAM d2", 8, 32, 4, 2, adrs=range(9), sels=[0, 1]))
+    A(lambda: conv_sram_inst("Up 8->16 / SRAM d2", 8, 16, 4, 2, adrs=range(5), sels=[0, 1]))
+    A(lambda: conv_sram_inst("Up 8->32 / SRAM d2", 8, 32, 4, 2, adrs=range(5 if quick else 9), sels=[0, 1]))
+    if not quick:
+        A(lambda: conv_sram_inst("Up 8->16 / SRAM d4", 8, 16, 4, 4, adrs=range(9), sels=[0, 1]))
     # --- remapper
     REG = [(0x4, 4, 0x18), (0x8, 2, 0x0)]
     A(lambda: remap_inst("Remap word dw16 2 regions", 16, 4, 0x10, 16, REG, adrs=range(16)))
     A(lambda: remap_inst("Remap byte dw16 2 regions", 16, 4, 0x10, 16, REG, addressing="byte", adrs=range(32)))
-    A(lambda: remap_inst("Remap word dw8 2 regions / SRAM d8", 8, 4, 0x0, 8, [(0x2, 2, 0x4), (0x4, 2, 0x2)], depth=8,
-                         adrs=range(9)))
+    A(lambda: remap_inst("Remap word dw8 2 regions / SRAM d4", 8, 3, 0x0, 4, [(0x1, 1, 0x2), (0x2, 1, 0x1)], depth=4,
+                         adrs=range(5)))
+    if not quick:
+        A(lambda: remap_inst("Remap word dw8 2 regions / SRAM d8", 8, 4, 0x0, 8, [(0x2, 2, 0x4), (0x4, 2, 0x2)],
+                             depth=8, adrs=range(9)))
     # --- Wishbone2CSR
     A(lambda: wb2csr_inst("Wishbone2CSR registered dw16", 16, 3, True, caw=2, adrs=range(5)))
     A(lambda: wb2csr_inst("Wishbone2CSR unregistered dw16", 16, 3, False, caw=2, adrs=range(5)))
     # --- cache, 2 lines x 2 words, both width directions
     A(lambda: cache_inst("Cache 8->16 2 lines x 2 words (free slave)", 4, 8, 16, 3, 2, adrs=range(8), sels=[0, 1],
-                         slave_letters=[(0, 0, 0), (1, 0, 0), (1, 0xB2A1, 0)]), q=700)
+                         slave_letters=[(0, 0, 0), (1, 0, 0), (1, 0xB2A1, 0)]), q=350)
     A(lambda: cache_inst("Cache 16->8 2 lines x 2 words (free slave)", 2, 16, 8, 2, 3, adrs=range(4), sels=[0, 3, 1],
-                         slave_letters=[(0, 0, 0), (1, 0, 0), (1, 0xA1, 0)]), q=900)
-    A(lambda: cache_inst("Cache 8->16 / SRAM d4", 4, 8, 16, 3, 2, depth=4, adrs=range(8), sels=[1]), q=4000)
-    A(lambda: cache_inst("Cache 16->8 / SRAM d8", 2, 16, 8, 2, 3, depth=8, adrs=range(4), sels=[3, 1]), q=4000)
+                         slave_letters=[(0, 0, 0), (1, 0, 0), (1, 0xA1, 0)]), q=450)
+    A(lambda: cache_inst("Cache 8->16 / SRAM d4", 4, 8, 16, 3, 2, depth=4, adrs=range(8), sels=[1]), q=2000)
+    A(lambda: cache_inst("Cache 16->8 / SRAM d8", 2, 16, 8, 2, 3, depth=8, adrs=range(4), sels=[3, 1]), q=2000)
     # --- realistic sizes, random lock-step co-simulation with the monitors armed
     B(lambda: sram_inst("SRAM 4KiB dw32", 32, 1024, 30, mode="B", init=words_init(64, 4, lambda i: i * 0x01010101 + 7)))
     B(lambda: sram_inst("SRAM 1KiB dw64 burst", 64, 128, 29, burst=True, mode="B"))
